@@ -192,6 +192,12 @@ def run(R):
         R.saw(rs)
         R.check(len(rs.calls(pat='http::Response', name='new')) == 1 and len(rs.calls(name='into_sanitized_headers')) == 1, 'C03.R2', 'Response::into_http', site(rs), 'http::Response::new + into_sanitized_headers')
 
+    # ---------------------------------------------------------------- R6 the response to a path nobody serves is a gRPC response too
+    R.describe('C03.R6', 'a call to a path no service is mounted at is answered by the router itself with status 200, content-type application/grpc and grpc-status (Status::unimplemented("").into_http()): every Routes value carries that fallback (C10.R1 instances re-evaluated under this id) - without it axum answers a bare HTTP 404 with no grpc-status')
+    with R.guard('C03.R6'):
+        import C10
+        C10.check_routes_fallback(R, tonic, 'C03.R6')
+
     # ---------------------------------------------------------------- R3 prefix (shared with C01)
     R.describe('C03.R3', 'length-prefixed message layout: flag byte = is_some(encoding) as u8 (so 0 or 1), big-endian 4-byte length of the payload (C01.R1 instances re-evaluated under this id)')
     with R.guard('C03.R3'):
